@@ -1529,6 +1529,11 @@ func c20Enumerate(a c20Args, f func(part, key string, mk func() []c20Elem, opt i
 			if cont == "paragraph" {
 				masks = []int{0, c20B, c20I, c20S, c20C}
 			}
+			if cont == "cellH" || cont == "cellB" {
+				// a formatted run inside a cell goes through another path of the writer than plain cell text
+				// (code runs return early): metacharacters must be handled there too (seed C20-d2)
+				masks = []int{0, c20B, c20C}
+			}
 			for _, m := range masks {
 				for _, ctx := range ctxs {
 					cl, ct, mm, cx := class, cont, m, ctx
